@@ -4,7 +4,7 @@
 //! colliding local names (same name in two namespaces, members/attributes named like global
 //! components, elements named like types, re-used prefixes, default namespaces, permuted
 //! declaration order) and once with all names distinct (the twin). The C02/C08 oracles run on
-//! both; C09 is violated iff the twin passes and the colliding case fails.
+//! both; C09 is violated iff the colliding case shows a failure that the twin does not show.
 
 use crate::c01::profile_for;
 use crate::c02::{self, Failure};
@@ -32,7 +32,8 @@ fn judge_pair(ex: &Externs, scratch: &Path, raw: &RawModel, profile: &Profile) -
 
 /// failures of the colliding case that count against C09 (the twin is clean)
 fn c09_failures(pair: &(Vec<Failure>, Vec<Failure>)) -> Vec<Failure> {
-    if pair.1.is_empty() { pair.0.clone() } else { vec![] }
+    // a failure the twin shows in the same way is not caused by the collision
+    pair.0.iter().filter(|f| !pair.1.iter().any(|t| t.sig == f.sig)).cloned().collect()
 }
 
 pub fn run(tier: Tier) -> i32 {
@@ -42,7 +43,7 @@ pub fn run(tier: Tier) -> i32 {
         "C09",
         tier,
         "exploration",
-        "collision profile of the supported-subset grammar: the same local name reused for struct-producing components of two namespaces (with different member sets), local elements and attributes named like global components, global elements named like their type, the same prefix bound to different namespaces in different files, default-namespace QNames, and permuted declaration order / file splits; references (type=, base=, ref=) are index-based in the model, so the expected binding is known. Each colliding case has a twin built from the same raw value with all names distinct. Oracle: the C02 member comparison + typed driver (rustc distinguishes g::mod_a::X from g::mod_b::X) + member-namespace check on both; violation iff the twin passes and the colliding case fails. Non-trivial: >= 1 name that exists in >= 2 namespaces or kinds; distinct by rendered file set.",
+        "collision profile of the supported-subset grammar: the same local name reused for struct-producing components of two namespaces (with different member sets), local elements and attributes named like global components, global elements named like their type, the same prefix bound to different namespaces in different files, default-namespace QNames, and permuted declaration order / file splits; references (type=, base=, ref=) are index-based in the model, so the expected binding is known. Each colliding case has a twin built from the same raw value with all names distinct. Oracle: the C02 member comparison + typed driver (rustc distinguishes g::mod_a::X from g::mod_b::X) + member-namespace check on both; violation iff the colliding case shows a failure that the twin does not show in the same way. Non-trivial: >= 1 name that exists in >= 2 namespaces or kinds; distinct by rendered file set.",
     );
     ev.assume("a failure that also shows on the twin belongs to C02/C08, not to C09, and is only counted here");
     let ex = match Externs::discover() {
@@ -56,6 +57,7 @@ pub fn run(tier: Tier) -> i32 {
     let (mut profile, gates) = profile_for(&findings, "C09");
     profile.wsdl = 0;
     profile.collide = true;
+    profile.colliding_abbrev = true;
     profile.max_files = 4;
     ev.extra.insert("gates_masked".into(), json!(gates));
     let scratch = scratch_dir("c09");
